@@ -74,6 +74,13 @@ mod driver {
             "update_trust_score" => m.update_trust_score(&n, f64::from_bits(u(case, "in.score"))),
             "record_eviction" => m.record_eviction(&n, EvictionReason::CloseGroupRejection),
             "remove_node" => m.remove_node(&n),
+            "candidates" => {
+                let c = m.get_eviction_candidates();
+                let o = id(case, "other");
+                out.insert("n".into(), json!(c.len()));
+                out.insert("occ_cand".into(), json!(c.iter().filter(|(i, _)| *i == n).count()));
+                out.insert("occ_other".into(), json!(c.iter().filter(|(i, _)| *i == o).count()));
+            }
             _ => {
                 out.insert("reason".into(), m.get_eviction_reason(&n).map(|r| reason_json(&r)).unwrap_or(Value::Null));
                 out.insert("should_evict".into(), json!(m.should_evict(&n)));
